@@ -42,12 +42,29 @@ def offChan (p : Nat × Msg) : Bool := getChannel p.2 == none
 def channelsOf (t : Track) : List Nat :=
   (List.range 16).filter (fun c => t.any (fun e => getChannel e.msg == some c))
 
-/-- domain of C16 (DESIGN §8): a single-track file that is not format 1 already, total ticks below
-    `2^32` (the recomputed deltas are `uint32`), end-of-track only where `Track.Close` puts it -/
+/-- (tick, message) pairs non-decreasing from `lo`, every step (the first one from `lo`) below `2^32`: exactly what
+    `uint32` delta times can express -/
+def GapsP : Nat → List (Nat × Msg) → Prop
+  | _, [] => True
+  | lo, p :: r => lo ≤ p.1 ∧ p.1 - lo < 4294967296 ∧ GapsP p.1 r
+
+instance GapsP.dec : (lo : Nat) → (l : List (Nat × Msg)) → Decidable (GapsP lo l)
+  | _, [] => isTrue trivial
+  | lo, p :: r =>
+    have := GapsP.dec p.1 r
+    by unfold GapsP; exact inferInstance
+
+/-- domain of C16 (DESIGN §8): a single-track file that is not format 1 already, end-of-track only where
+    `Track.Close` puts it, and — because the recomputed deltas are `uint32` — on every resulting track (the
+    non-channel events; each channel) every step from one event to the next, the first one from tick 0, below `2^32`
+    ticks. The total length is only bounded by `int64` (the code's accumulator); a source shorter than `2^32` ticks
+    is in the domain whatever its events (`Dom.ofTotal`). -/
 structure Dom (f : File) (t : Track) : Prop where
   single : f.tracks = [t]
   fmt : f.format ≠ 1
-  ticks : totalTicks t < 4294967296
+  ticks63 : totalTicks t < 9223372036854775808
+  gapsMeta : GapsP 0 ((timed t).filter offChan)
+  gapsChan : ∀ c, GapsP 0 ((timed t).filter (onChan c))
   eot : EOTOnlyLast t
 
 end Midi.Convert
